@@ -69,17 +69,15 @@ def emit_fn(fn):
     body, n = X.r_sizeof_decltype(body); note("R13_decltype", n)
     body, f = X.r_subst(body, list(fn.subst)); note("R4_subst", sum(c for _, c in f))
     body, n = X.r_std(body); note("R2_std", n)
+    body, n = X.r_auto(body); note("R22_auto", n)
     body, n = X.r_functional_cast(body); note("R1b_functional_cast", n)
     body, n = X.r_brace_scalar_init(body); note("R1c_brace_init", n)
     body, n = X.r_if_constexpr(body); note("R6_if_constexpr", n)
     if fn.pack:
         body, n = X.r_pack_return(body, *fn.pack); note("R8_pack", n)
-        if n == 0:
-            raise ExtractionError("%s: pack-expansion return not found" % fn.key)
+        body, n = X.r_fold_or(body, fn.pack[0], fn.pack[1]); note("R8_fold", n)
     if fn.fold:
         body, n = X.r_fold_or(body, *fn.fold); note("R8_fold", n)
-        if n == 0:
-            raise ExtractionError("%s: fold expression not found" % fn.key)
 
     if fn.brace_call:
         body, n = X.r_brace_call_arg(body, *fn.brace_call); note("R8b_brace_call", n)
@@ -114,6 +112,8 @@ def emit_fn(fn):
             arrays.add(nm)
         if ty.rstrip().endswith("*") and ty.rstrip().endswith("/*ref*/ *"):
             refs.add(nm)
+    for m in re.finditer(r"__auto_type\s+([A-Za-z_]\w*)\s*=\s*(backend_at|verif_b_table)\b", body):
+        arrays.add(m.group(1))   # object copy of a covfie::array returned by the backend
     if fn.vec_types:
         decl = re.compile(r"\b(" + "|".join(re.escape(v) for v in fn.vec_types) + r")\s+([A-Za-z_]\w*)\s*[;=]")
         for m in decl.finditer(body):
